@@ -39,8 +39,7 @@ EntShapeOK(e, k) ==
   IF e.dom = "cells" THEN Len(vs) = NNodesOf(e.kind) /\ CellShapeOK(e.kind, vs)
   ELSE /\ Len(vs) = (CASE e.kind = "line" -> 1 [] e.kind \in {"tri", "quad"} -> 2 [] e.kind = "tet" -> 3 [] OTHER -> 4)
        /\ FacetShapeOK(vs)
-       /\ \A s \in DOMAIN FacetSimplices(vs) : SimplexJacExact(FacetSimplices(vs)[s])
-                                               /\ SimplexJacSq(FacetSimplices(vs)[s]) > 0
+       /\ \A s \in DOMAIN FacetSimplices(vs) : SimplexJacSq(FacetSimplices(vs)[s]) > 0
 GeometryWF(e) ==
   /\ e.kind \in {"line", "tri", "quad", "tet", "hex", "wedge"} /\ e.scale \in {1, 2, 4}
   /\ e.dom \in {"cells", "facets"}
@@ -49,6 +48,12 @@ GeometryWF(e) ==
   /\ \A k \in DOMAIN e.ents : (\A i \in DOMAIN e.ents[k] : e.ents[k][i] \in DOMAIN e.p) /\ EntShapeOK(e, k)
 
 BoxVolume(box) == LET RECURSIVE V(_) V(c) == IF c > Len(box[1]) THEN 1 ELSE (box[2][c] - box[1][c]) * V(c + 1) IN V(1)
+\* every facet of the region has a rational measure (needed wherever a SUM over facets is compared)
+FacetsRational(e) ==
+  e.dom = "facets" => \A k \in DOMAIN e.ents : \A s \in DOMAIN FacetSimplices(Pts(e, e.ents[k])) :
+                         SimplexJacExact(FacetSimplices(Pts(e, e.ents[k]))[s])
+\* the entities the basis reports (tind / find) are the requested ones, as multisets (both lists arrive sorted)
+RegionAsRequested(e) == e.gids = e.rids
 \* extra quadrature degree needed because the Jacobian of a non-affine cell is not constant
 ExtraDegree(e) == IF e.dom = "cells" /\ e.kind = "quad" /\ \E k \in DOMAIN e.ents : ~IsParallelogram(Pts(e, e.ents[k]))
                   THEN 1 ELSE 0
@@ -56,9 +61,11 @@ IntegrateWF(e) ==
   /\ GeometryWF(e)
   /\ Len(e.alpha) = MeshDim(e.kind) /\ \A c \in DOMAIN e.alpha : e.alpha[c] \in 0..8
   /\ MDeg(e.alpha) + ExtraDegree(e) <= e.order                        \* the promise of the property applies
-  /\ e.oracle \in {"cells", "box"}
+  /\ e.oracle \in {"cells", "box", "sq"}
+  /\ e.oracle = "cells" => FacetsRational(e)
+  /\ e.oracle = "sq" => e.dom = "facets" /\ e.scale ^ (2 * (MDeg(e.alpha) + EntDim(e))) <= 65536
   /\ IPow(Max2(MaxAbsCoord(e.p), 1), MDeg(e.alpha) + MeshDim(e.kind)) < 1073741824 \div 64
-  /\ e.oracle = "cells" => MDeg(e.alpha) + EntDim(e) <= 8
+  /\ e.oracle \in {"cells", "sq"} => MDeg(e.alpha) + EntDim(e) <= 8
   /\ e.scale ^ (MDeg(e.alpha) + EntDim(e)) <= 65536
   /\ e.oracle = "box" =>
        /\ e.dom = "cells" /\ Len(e.box) = 2
@@ -96,7 +103,23 @@ IntegrateVerdicts(e) ==
       want == IF e.oracle = "box" THEN Unscale(BoxIntegralFx(e.box[1], e.box[2], e.alpha), e.scale, n)
               ELSE Unscale(FxSumAll(ints), e.scale, n)
       mag(jac) == 1 + (jac * Mq) \div den
-  IN [FunctionalExact |-> FxNear(e.val, want, TolScaled(TolSum, mag(ISumAll(jacs))))] @@
+  IN IF e.oracle = "sq"
+     THEN \* facets with irrational measure sqrt(J2): per facet, value^2 = J2 * (N / ((q+k)! scale^(q+k)))^2 and the sign of N
+          (IF e.evals = <<>> THEN <<>> ELSE
+           [ElementalExact |-> \A k \in 1..ne :
+              LET S    == EntSimplices(e, k)
+                  J2   == SimplexJacSq(S[1])
+                  Nn   == ISumAll([s \in DOMAIN S |-> SimplexMonoSum(S[s], e.alpha)])
+                  r    == Unscale(FxRat(Nn, Fact(n)), e.scale, n)
+                  w2   == FxMulSmall(FxSq(r), J2)
+                  g2   == FxSq(e.evals[k])
+              IN /\ J2 <= 32768 /\ \A s \in DOMAIN S : SimplexJacSq(S[s]) = J2
+                 /\ FxMulOK(r) /\ FxMulOK(e.evals[k])
+                 /\ FxNear(g2, w2, TolScaled(TolSum, 4 * (1 + w2[1])))
+                 /\ Nn > 0 => FxLeq(FxNeg(FxUlp(4)), e.evals[k])
+                 /\ Nn < 0 => FxLeq(e.evals[k], FxUlp(4))])
+     ELSE
+     [FunctionalExact |-> FxNear(e.val, want, TolScaled(TolSum, mag(ISumAll(jacs))))] @@
      (IF e.evals # <<>> /\ e.oracle = "cells"
       THEN [ElementalExact |-> \A k \in 1..ne :
                FxNear(e.evals[k], Unscale(ints[k], e.scale, n), TolScaled(TolSum, mag(jacs[k])))]
@@ -104,7 +127,7 @@ IntegrateVerdicts(e) ==
 
 \* the mass matrix of a partition-of-unity element sums to the measure of the region (cancellation among
 \* up to (#local)^2 entries of both signs per cell: 16 times the magnitude)
-MassSumWF(e) == GeometryWF(e) /\ FxWF(e.val) /\ RegionJac(e) < 1000000
+MassSumWF(e) == GeometryWF(e) /\ FacetsRational(e) /\ FxWF(e.val) /\ RegionJac(e) < 1000000
 MassSumsToMeasure(e) == FxNear(e.val, MeasureOracle(e), TolScaled(TolSum, 16 * Magnitude(e, 0)))
 
 \* ---------------------------------------------------------------------------
@@ -180,6 +203,7 @@ C02Clauses(e, carried) ==
   IF ~C02WellFormed(e) THEN [WellFormed |-> FALSE]
   ELSE IF e.err # "" THEN [WellFormed |-> TRUE, NoUnexpectedError |-> FALSE]
   ELSE [WellFormed |-> TRUE, NoUnexpectedError |-> TRUE] @@
+       (IF e.a \in {"Integrate", "MassSum"} THEN [RegionAsRequested |-> RegionAsRequested(e)] ELSE <<>>) @@
        (CASE e.a = "Integrate" ->
                IntegrateVerdicts(e)
           [] e.a = "MassSum" -> [MassSumsToMeasure |-> MassSumsToMeasure(e)]
